@@ -80,7 +80,7 @@ GhostAfter(p, a, q0) ==
       rs == rs0 \cup add
       sorted == SelectSeq(<<1, 2, 3, 4, 5>>, LAMBDA i : i \in rs)
   IN  [q0 EXCEPT !.ghost.readySteps = IF q0.ro.exists THEN sorted ELSE p.ghost.readySteps,
-                 !.ghost.brEver = (p.ghost.brEver /\ a # "user.release3late") \/ q0.br.exists,
+                 !.ghost.brEver = (p.ghost.brEver /\ a # "user.release3late" /\ (~q0.ro.exists \/ q0.ro.canaryRev = p.ro.canaryRev)) \/ q0.br.exists,
                  !.ghost.readyRepl =
                    LET base == IF q0.ro.exists /\ q0.wl.exists /\ q0.ro.canaryRev = p.ro.canaryRev /\ q0.wl.R = p.wl.R THEN p.ghost.readyRepl ELSE 0
                        rdy  == /\ q0.ro.exists /\ q0.wl.exists /\ q0.br.exists /\ q0.br.bstate = "Ready" /\ q0.br.phase = "Progressing" /\ q0.br.obsGenOk
